@@ -700,7 +700,11 @@ fn invalid_cases(e: &mut Env, rng: &mut Rng, n: u64) {
     let r = run_cmd(&e.moc, &a, None);
     e.rep.evaluations += 1;
     if r.code.is_none() || r.code == Some(101) || r.stderr.contains("panicked") {
-      e.rep.violation(&format!("the moc tool crashes on invalid input (exit {:?})", r.code), &case, &r.stderr.chars().take(300).collect::<String>(), "non-zero exit + message", "C19 (never a crash)");
+      // D35 (known finding, same root: the rows of a FITS range MOC are not validated): a row whose start lies in the
+      // last cells of the index type makes the range -> cell conversion overflow (debug build: abort)
+      let rows_only = desc.starts_with("FITS") && bytes.len() == good.len() && bytes[..5760.min(bytes.len())] == good[..5760.min(good.len())];
+      let cls = if rows_only && r.stderr.contains("src/elem/range.rs") && r.stderr.contains("attempt to add with overflow") { "fits-rows-not-validated|overflow-in-cell-conversion" } else { "" };
+      e.rep.violation_c(&format!("the moc tool crashes on invalid input (exit {:?})", r.code), &case, &r.stderr.chars().take(300).collect::<String>(), "non-zero exit + message", "C19 (never a crash)", cls);
     } else if r.code == Some(0) {
       // accepted: a corrupted data byte can still be a valid MOC; what is written must then decode
       let fmt = args[args.len() - 2].as_str();
